@@ -836,6 +836,15 @@ def _inline_local_functions(fn):
                     body = [b for b in st.body if not (isinstance(b, ast.Expr) and isinstance(b.value, ast.Constant))]
                     if len(body) == 1 and isinstance(body[0], ast.Return) and body[0].value is not None:
                         g = (st.name, st.args, body[0].value, st)
+                    elif body and all(isinstance(b, (ast.Assign, ast.Return, ast.If)) for b in body):
+                        # straight-line temporaries before the return (Rt = X.R.T; return f(Rt, -Rt @ X.t)) fold into one expression
+                        from .boolfold import value_expr
+                        try:
+                            e_ = value_expr(st)
+                        except Exception:
+                            e_ = None
+                        if e_ is not None:
+                            g = (st.name, st.args, e_, st)
                 elif isinstance(st, ast.Assign) and len(st.targets) == 1 and isinstance(st.targets[0], ast.Name) and isinstance(st.value, ast.Lambda):
                     g = (st.targets[0].id, st.value.args, st.value.body, st)
                 if g is None or cnt.get(g[0], 0) != 1:
